@@ -1,4 +1,5 @@
 import SslModel.Model.Spec
+import SslModel.Lemmas.TyTrans
 import SslModel.Thm.C06
 /-!
 # C12 — control flow selects and exits exactly the documented construct
@@ -214,5 +215,69 @@ theorem seq_cons (f : Nat) (env : Env) (s s2 : Expr) (rest : List Expr) :
       let (_, env') ← evalStmt f env s
       evalSeq f env' (s2 :: rest)) := by
   simp only [evalSeq]
+
+/-! ## an accepted match always has an arm for the value it meets -/
+
+section coverage
+open Ssl.Ty
+
+/-- what the checker knows about an arm (`MatchArm::is_covering_type`) -/
+inductive ArmKind where
+  | value            -- `v1, v2 => ..`: never counted as covering
+  | other            -- `=> ..`
+  | ty (t : Ty)      -- `x: T => ..`
+
+/-- `MatchArm::is_covering_type` on a non-union type; at run time (`MatchArm::covers`) the same test is
+    applied to the scrutinee's run-time type -/
+def armCovers : ArmKind → Ty → Bool
+  | .value, _ => false
+  | .other, _ => true
+  | .ty a, t => sub t a
+
+/-- `Match::is_covering_type`: a union is covered member by member -/
+def covering (arms : List ArmKind) : Ty → Bool
+  | .multi ms => ms.all fun m => arms.any (armCovers · m)
+  | t => arms.any (armCovers · t)
+
+/-- **an accepted match always has an arm for the value it meets**: if the arms cover the static type `T`
+    of the scrutinee, then for every run-time type `R` below `T` (run-time types are never unions or `!`)
+    some arm's run-time test succeeds -/
+theorem coverage_sound (arms : List ArmKind) (R T : Ty) (wR : wf R = true) (wT : wf T = true)
+    (warms : ∀ a, ArmKind.ty a ∈ arms → wf a = true)
+    (hR1 : isMulti R = false) (hR2 : isNever R = false)
+    (hsub : sub R T = true) (hc : covering arms T = true) :
+    ∃ arm ∈ arms, armCovers arm R = true := by
+  -- a non-union type `M` with `R ≤ M` that some arm covers
+  have key : ∀ M : Ty, wf M = true → sub R M = true → arms.any (armCovers · M) = true →
+      ∃ arm ∈ arms, armCovers arm R = true := by
+    intro M wM hRM hany
+    rw [List.any_eq_true] at hany
+    obtain ⟨arm, harm, hcov⟩ := hany
+    cases arm with
+    | value => simp [armCovers] at hcov
+    | other => exact ⟨.other, harm, rfl⟩
+    | ty a =>
+      simp only [armCovers] at hcov
+      exact ⟨.ty a, harm, by simp only [armCovers]; exact sub_trans R M a wR wM (warms a harm) hRM hcov⟩
+  by_cases hm : isMulti T = true
+  · cases T <;> simp [isMulti] at hm
+    rename_i ms
+    rw [sub_multi_right R ms hR1 hR2, anyMatch_eq, List.any_eq_true] at hsub
+    obtain ⟨m, hmem, hRm⟩ := hsub
+    simp only [covering, List.all_eq_true] at hc
+    exact key m (isMulti_false_of_member wT hmem).2.2.2 hRm (hc m hmem)
+  · have hm' : isMulti T = false := by simpa using hm
+    have hc' : arms.any (armCovers · T) = true := by
+      cases T <;> simp [isMulti] at hm' <;> simpa [covering] using hc
+    exact key T wT hsub hc'
+
+/-- the check is not vacuous and not trivially true: `x: int => ..` alone does not cover `int|string` -/
+example : covering [.ty .int] (.multi [.int, .str]) = false ∧
+    covering [.ty .int, .ty (.multi [.str, .void])] (.multi [.int, .str]) = true ∧
+    covering [.value, .other] (.multi [.int, .str]) = true := by
+  refine ⟨?_, ?_, ?_⟩ <;> simp [covering, armCovers, sub, anyMatch, eqv]
+
+
+end coverage
 
 end Ssl.C12
